@@ -95,7 +95,13 @@ def no_retry(f, actor_name):
             logging.getLogger(__name__).exception("Error in %s", actor_name)
             # don't forward the exception as is because the main process might not have this class available on the load path
             # and will fail then while deserializing the cause.
-            self.send(sender, BenchmarkFailure(traceback.format_exc()))
+            failure = BenchmarkFailure(traceback.format_exc())
+            # A failure while handling a message that we have sent to ourselves (e.g. a wakeup) must not queue up behind messages
+            # that are already waiting in our mailbox (e.g. the one that completes the benchmark): forward it right away.
+            if sender == self.myAddress and hasattr(self, "receiveMsg_BenchmarkFailure"):
+                self.receiveMsg_BenchmarkFailure(failure, sender)
+            else:
+                self.send(sender, failure)
 
     return guard
 
